@@ -17,9 +17,10 @@ LEVEL_TEXT = ('every combination of payload shape (symlinks to outside files/dir
 LEVEL_NOTE = 'one injected error per run (pairs of errors are not explored for the purging commands); trusted: the shim\'s entry-path resolution (realpath of the parent + basename); running as root, so mode-000 directories do not block deletion'
 RULE = ('payload {link->outside file abs/rel, link->outside dir abs/rel, dangling, tree with outside links at depth 1,2,3, tree with mode-000 child dir, plain file} x info name '
         '{plain, x.trashinfo.trashinfo, name with newline} x reach {direct home, XDG_DATA_HOME symlink, .Trash-uid symlink, Trash/info itself a symlink with a decoy files/ beside its target} x command {empty, empty 0, rm *, rm exact} x orphan-symlink '
-        'payload {yes,no}; second stage: for every payload x reach {direct, .Trash-uid symlink, info symlink; thorough + XDG symlink} x command {empty, empty 0, rm *; thorough + rm exact} every operation of the fault-free trace answers with every errno it can return, once and (mutating calls) persistently - containment oracle only; non-trivial = at least one deletion syscall was issued; distinct = (payload, name, reach, command, outcome)')
+        'payload {yes,no}; plus {file, tree, link} x reach x command with an info file named .trashinfo / ..trashinfo / ...trashinfo and a file beside files/ and info/; second stage: for every payload x reach {direct, .Trash-uid symlink, info symlink; thorough + XDG symlink} x command {empty, empty 0, rm *; thorough + rm exact} every operation of the fault-free trace answers with every errno it can return, once and (mutating calls) persistently - containment oracle only; non-trivial = at least one deletion syscall was issued; distinct = (payload, name, reach, command, outcome)')
 PAYLOADS = ['lf-abs', 'lf-rel', 'ld-abs', 'ld-rel', 'dang', 'tree1', 'tree2', 'tree3', 'tree000', 'file']
 NAMES = ['plain', 'dbl', 'newline']
+STRAYS = ['.trashinfo', '..trashinfo', '...trashinfo']
 REACH = ['direct', 'xdg-link', 'alt-link', 'info-link', 'home-named-info']
 CMDS = ['empty', 'empty0', 'rm-star', 'rm-exact', 'empty-v', 'empty0-v']
 
@@ -29,7 +30,10 @@ def dimensions(tier):
 
 
 def cases(tier):
-    return [{'pl': p, 'nm': n, 'reach': r, 'cmd': c, 'orphan': o} for o in (0, 1) for c in CMDS for r in REACH for n in NAMES for p in PAYLOADS]
+    out = [{'pl': p, 'nm': n, 'reach': r, 'cmd': c, 'orphan': o} for o in (0, 1) for c in CMDS for r in REACH for n in NAMES for p in PAYLOADS]
+    # an info file whose name is nothing but the suffix, or '.' / '..' + suffix: its "payload" would be files/, files/. or files/.. (the trash directory)
+    out += [{'pl': p, 'nm': 'plain', 'reach': r, 'cmd': c, 'orphan': 0, 'stray': st} for st in STRAYS for c in CMDS for r in REACH for p in ('file', 'tree1', 'ld-abs')]
+    return out
 
 
 FAULT_BASE = {'quick': (PAYLOADS, ['direct', 'alt-link', 'info-link'], ['empty', 'empty0', 'rm-star']),
@@ -114,6 +118,9 @@ def run_case(c):
     infodir = '/store/info' if c['reach'] == 'info-link' else phys + '/info'
     if c['reach'] == 'info-link':
         W.file('/store/files/%s' % nm, 'decoy outside the trash\n').file('/store/files/bystander', 'decoy\n')
+    W.file(phys + '/keepme', 'beside files/ and info/: not a trash entry\n')
+    if c.get('stray'):
+        W.file('%s/%s' % (infodir, c['stray']), '[Trash Info]\nPath=%s\nDeletionDate=2019-01-01T00:00:00\n' % (loc + '-stray'))
     W.file('%s/%s.trashinfo' % (infodir, nm), '[Trash Info]\nPath=%s\nDeletionDate=2020-01-01T00:00:00\n' % loc)
     up = '../' * (phys.count('/') + 1)
     add_payload(W, '%s/files/%s' % (phys, nm), c['pl'], up)
@@ -133,12 +140,14 @@ def run_case(c):
         after = sb.snapshot()
     zones = [phys + '/files', infodir]
     detail = {'argv': argv, 'exit': r.exit, 'err': r.err[-300:], 'trash': phys}
-    dims = '%s|%s|%s|%s|o%d' % (c['pl'], c['nm'], c['reach'], c['cmd'], c['orphan'])
+    dims = '%s|%s|%s|%s|o%d%s' % (c['pl'], c['nm'], c['reach'], c['cmd'], c['orphan'], '|stray=' + c['stray'] if c.get('stray') else '')
     frame = world.diff(before, after, dir_mtime=False, ignore=zones)
     muts = [t for t in r.trace if cell.is_mutating(t) and cell.ok_of(t)]
     outside = [t[:4] for t in muts if not all(any(e.startswith(z + '/') for z in zones) for e in (t[3] or t[2]))]
     nt = bool(muts) and dims
     blame = 'payload=%s|cmd=%s|reach=%s' % (c['pl'], c['cmd'], c['reach'])
+    if c.get('stray'):
+        blame += '|info-file-named=' + c['stray']
     if flts:
         f = flts[0]
         delivered = any(t[0] == f['at'] and t[4] == f['errno'] for t in r.trace)
